@@ -98,7 +98,21 @@ def scratch_root():
     return d
 
 
+def harness_dir(scr):
+    """The harness module; with VF_REPO set (background runs against a snapshot of the repository) a
+    scratch copy whose replace directive points there. Registered commands never set VF_REPO."""
+    repo = os.environ.get("VF_REPO")
+    if not repo:
+        return HARNESS
+    dst = os.path.join(scr, "harness")
+    if not os.path.isdir(dst):
+        shutil.copytree(HARNESS, dst)
+        subprocess.run([GO, "mod", "edit", "-replace", "github.com/klev-dev/klevdb=" + repo], cwd=dst, env=ENV, check=True)
+    return dst
+
+
 def build(scr, race=False):
+    HARNESS = harness_dir(scr)
     out = os.path.join(scr, "vf.race.test" if race else "vf.test")
     cmd = [GO, "test", "-tags", "verif", "-c", "-o", out]
     if race:
